@@ -1,6 +1,7 @@
 package rules
 
 import (
+	"fmt"
 	"go/constant"
 	"go/token"
 	"go/types"
@@ -307,6 +308,169 @@ func checkWidthColumn(c *core.Ctx) {
 				st.Ob(underOwn)
 				if !underOwn {
 					c.ReportAt("R04.28", fn, in.Pos(), "width-column:"+of.Name(), core.FuncName(fn)+" widens "+of.Name()+" to a register pair under the width column of another operand, not under "+own+": an instruction whose operands have different widths (v_cmp_class_f64: 64-bit SRC0, 32-bit SRC1) decodes this operand with the wrong register count")
+				}
+			}
+		}
+	}
+}
+
+// checkOpcodeOperandsPrinted (R04.31): what the decoder fills for one opcode only, the printer
+// prints for that opcode. The format decoders give a few opcodes an extra operand (the literal K
+// of v_madmk / v_madak / v_fmamk / v_fmaak in Src2); the per-format printer has its own switch on
+// the opcode. Both switches are resolved per opcode value: an operand field that the decoder
+// stores under opcode k (and not for an opcode without an arm) has to be read by the printer arm
+// the same k selects, otherwise two encodings that differ in that operand print alike.
+func checkOpcodeOperandsPrinted(c *core.Ctx) {
+	st := c.Rule("R04.31", "an operand that a format decoder fills only for particular opcodes (stores to an *Operand field of Inst under an arm of its opcode switch: the literal K of v_madmk / v_madak / v_fmamk / v_fmaak) is printed for exactly those opcodes: the format's printer function, resolved for the same opcode value, reads that field. Decoder and printer are paired through the FormatType dispatch of Decode and Print; opcode switches are decided per value, other branches explored both ways", 4)
+	pi := NewPkgInfo(c, instsPkg)
+	if pi.Pkg == nil {
+		return
+	}
+	dec := c.SSAFunc(instsPkg, "Disassembler.Decode")
+	prt := c.SSAFunc(instsPkg, "InstPrinter.Print")
+	if dec == nil || prt == nil {
+		c.Report(core.Finding{Rule: "R04.31", Kind: "anchor", Pkg: instsPkg, Func: "-", Detail: "Decode/Print", Msg: "Disassembler.Decode or InstPrinter.Print not found"})
+		return
+	}
+	isFmt := isLoadOfField("FormatType")
+	isOpc := isLoadOfField("Opcode")
+	callees := func(blocks []*ssa.BasicBlock) []*ssa.Function {
+		var out []*ssa.Function
+		seen := map[*ssa.Function]bool{}
+		for _, b := range blocks {
+			for _, in := range b.Instrs {
+				if cc := core.CallOf(in); cc != nil {
+					if f := cc.StaticCallee(); f != nil && f.Pkg == pi.Pkg && !seen[f] && len(f.Blocks) > 0 {
+						seen[f] = true
+						out = append(out, f)
+					}
+				}
+			}
+		}
+		return out
+	}
+	hasOpcodeSwitch := func(fn *ssa.Function) []int64 {
+		set := map[int64]bool{}
+		for _, b := range fn.Blocks {
+			for _, in := range b.Instrs {
+				bo, ok := in.(*ssa.BinOp)
+				if !ok || bo.Op != token.EQL {
+					continue
+				}
+				for _, pr := range [][2]ssa.Value{{bo.X, bo.Y}, {bo.Y, bo.X}} {
+					x := pr[0]
+					if cv, ok := x.(*ssa.Convert); ok {
+						x = cv.X
+					}
+					if !isOpc(x) {
+						continue
+					}
+					if k, ok := core.ConstInt(pr[1]); ok {
+						set[k] = true
+					}
+				}
+			}
+		}
+		var out []int64
+		for k := range set {
+			out = append(out, k)
+		}
+		sort.Slice(out, func(i, j int) bool { return out[i] < out[j] })
+		return out
+	}
+	isOperandField := func(fa *ssa.FieldAddr) bool {
+		if !strings.HasSuffix(namedTypeName(fa.X.Type()), "insts.Inst") && namedTypeName(fa.X.Type()) != "insts.Inst" {
+			return false
+		}
+		f := fieldOfStruct(fa.X.Type(), fa.Field)
+		return f != nil && namedTypeName(f.Type()) == "insts.Operand"
+	}
+	storesIn := func(blocks []*ssa.BasicBlock) map[string]bool {
+		out := map[string]bool{}
+		for _, b := range blocks {
+			for _, in := range b.Instrs {
+				if sto, ok := in.(*ssa.Store); ok {
+					if fa, ok := sto.Addr.(*ssa.FieldAddr); ok && isOperandField(fa) {
+						out[fieldNameOf(fa)] = true
+					}
+				}
+			}
+		}
+		return out
+	}
+	var readsIn func(blocks []*ssa.BasicBlock, depth int, out map[string]bool, seen map[*ssa.Function]bool)
+	readsIn = func(blocks []*ssa.BasicBlock, depth int, out map[string]bool, seen map[*ssa.Function]bool) {
+		for _, b := range blocks {
+			for _, in := range b.Instrs {
+				if u, ok := in.(*ssa.UnOp); ok && u.Op == token.MUL {
+					if fa, ok := u.X.(*ssa.FieldAddr); ok && isOperandField(fa) {
+						out[fieldNameOf(fa)] = true
+					}
+				}
+				if cc := core.CallOf(in); cc != nil && depth < 2 {
+					if f := cc.StaticCallee(); f != nil && f.Pkg == pi.Pkg && !seen[f] && len(f.Blocks) > 0 {
+						seen[f] = true
+						readsIn(f.Blocks, depth+1, out, seen)
+					}
+				}
+			}
+		}
+	}
+	scope := pi.Pkg.Pkg.Scope()
+	var names []string
+	consts := map[string]int64{}
+	for _, n := range scope.Names() {
+		k, ok := scope.Lookup(n).(*types.Const)
+		if !ok || namedTypeName(k.Type()) != "insts.FormatType" {
+			continue
+		}
+		if v, exact := constant.Int64Val(k.Val()); exact {
+			consts[n] = v
+			names = append(names, n)
+		}
+	}
+	sort.Strings(names)
+	const noArm = int64(0x7ffffff1)
+	for _, name := range names {
+		k := consts[name]
+		var decFn, prtFn *ssa.Function
+		for _, f := range callees(opReach(dec, isFmt, k)) {
+			if strings.HasPrefix(f.Name(), "decode") && len(hasOpcodeSwitch(f)) > 0 {
+				decFn = f
+			}
+		}
+		for _, f := range callees(opReach(prt, isFmt, k)) {
+			if strings.HasSuffix(f.Name(), "String") {
+				prtFn = f
+			}
+		}
+		if decFn == nil || prtFn == nil {
+			continue
+		}
+		base := storesIn(opReach(decFn, isOpc, noArm))
+		for _, op := range hasOpcodeSwitch(decFn) {
+			extra := storesIn(opReach(decFn, isOpc, op))
+			var fields []string
+			for f := range extra {
+				if !base[f] {
+					fields = append(fields, f)
+				}
+			}
+			sort.Strings(fields)
+			if len(fields) == 0 {
+				continue
+			}
+			reads := map[string]bool{}
+			readsIn(opReach(prtFn, isOpc, op), 0, reads, map[*ssa.Function]bool{prtFn: true})
+			for _, f := range fields {
+				st.Instances++
+				c.MarkAnalysed(decFn)
+				c.MarkAnalysed(prtFn)
+				ok := reads[f]
+				st.Ob(ok)
+				st.Sample("format %s opcode %d: %s stores Inst.%s; %s reads it for that opcode: %v", name, op, decFn.Name(), f, prtFn.Name(), ok)
+				if !ok {
+					c.ReportAt("R04.31", prtFn, prtFn.Pos(), fmt.Sprintf("operand-not-printed:%s:%d:%s", name, op, f), fmt.Sprintf("%s fills Inst.%s for opcode %d of format %s only, and %s never reads that field for opcode %d: the operand is missing from the disassembly (v_madmk_f32 v3, v7, 0x40490fdb, v5 prints as v_madmk_f32 v3, v7, v5), so instructions that differ only in it print alike", decFn.Name(), f, op, name, prtFn.Name(), op))
 				}
 			}
 		}
